@@ -503,11 +503,16 @@ SCENARIOS = {
     'mirror_2p1c': ('mirror', ['q', 'q'], ['q']),
     'two_prefixes': ('fifo', ['a', 'b'], ['a', 'b']),
     'fifo_1p1c': ('fifo', ['q'], ['q']),
+    # consumers that, between pulls, make calls whose transaction ends in ROLLBACK (delete of a missing key, incr of a missing
+    # key without default): ordinary use of the same handle that must not change how the next pull is protected
+    'fifo_1p2c_rollbacks': ('fifo', ['q'], ['q', 'q'], 'rollbacks'),
+    'fifo_2p2c_rollbacks': ('fifo', [None, None], [None, None], 'rollbacks'),
 }
 
 
 def conc_run(scenario, items, attempts, schedule, mkdir, max_steps=30000):
-    style, pp, cp = SCENARIOS[scenario]
+    style, pp, cp = SCENARIOS[scenario][:3]
+    noise = SCENARIOS[scenario][3] if len(SCENARIOS[scenario]) > 3 else None
     nprod, ncons = len(pp), len(cp)
     n = nprod + ncons
     directory = mkdir()
@@ -544,7 +549,15 @@ def conc_run(scenario, items, attempts, schedule, mkdir, max_steps=30000):
         def prog():
             c = caches[nprod + ci]
             try:
-                for _ in range(attempts[ci]):
+                for a in range(attempts[ci]):
+                    if noise == 'rollbacks':
+                        if a % 2 == 0:
+                            c.delete(('no-such-key', ci), retry=True)
+                        else:
+                            try:
+                                c.incr(('no-such-counter', ci), default=None, retry=True)
+                            except KeyError:
+                                pass
                     k, v = c.pull(prefix=cp[ci], side=pull_side, retry=True)
                     if k is not None:
                         got[ci].append((k, v))
@@ -665,7 +678,7 @@ def concurrent(ctx, res, nrandom, enum_len, stats):
     names = list(SCENARIOS)
     for i in range(nrandom):
         scenario = names[i % len(names)]
-        style, pp, cp = SCENARIOS[scenario]
+        style, pp, cp = SCENARIOS[scenario][:3]
         n = len(pp) + len(cp)
         items = [ctx.rng.randint(1, 4) for _ in pp]
         attempts = [ctx.rng.randint(2, 8) for _ in cp]
